@@ -36,11 +36,12 @@ enum { O_PUT, O_GET, O_REMOVE, O_CLEAR, O_WALK,                       /* maps */
        O_FINDMIN, O_FINDMAX, O_NEAREST,                                  /* tree only: copying ordered lookups */
        O_ADDAT, O_GETAT, O_POPAT,                                         /* list, vector: position = key */
        O_GETMULTI,                                                        /* list table without the unique option */
-       O_REVERSE, O_REMOVEAT, O_SETAT,                                    /* list, vector (setat: vector only): reverse(), removeat(position), setat(position, value) */
+       O_REVERSE, O_REMOVEAT, O_SETAT, O_RMFIRST, O_RMLAST, O_RESIZE,     /* removefirst/removelast (list, vector), resize(1 or 6) (vector) */
+       /* (continued) */                                    /* list, vector (setat: vector only): reverse(), removeat(position), setat(position, value) */
        O_NEXT1, O_NEXT1ANY,                                               /* one stand-alone getnext(copy) on a fresh cursor, NOT under the caller's lock: named (list tables) / unnamed (tree: smallest key; multi list table: first entry) */
        NOPS };
 static const char *ONAME[NOPS] = {"put", "get", "remove", "clear", "locked-walk", "addfirst", "addlast", "popfirst", "poplast", "getfirst", "getlast", "toarray", "tostring", "clear",
-                                  "find_min", "find_max", "find_nearest", "addat", "getat", "popat", "getmulti", "reverse", "removeat", "setat", "getnext-first", "getnext-first-any"};
+                                  "find_min", "find_max", "find_nearest", "addat", "getat", "popat", "getmulti", "reverse", "removeat", "setat", "removefirst", "removelast", "resize", "getnext-first", "getnext-first-any"};
 static bool is_add(int op) { return op == O_ADDFIRST || op == O_ADDLAST || op == O_ADDAT; }
 static bool is_pop(int op) { return op == O_POPFIRST || op == O_POPLAST || op == O_POPAT; }
 static bool is_seqget(int op) { return op == O_GETFIRST || op == O_GETLAST || op == O_GETAT || op == O_NEXT1; }
@@ -85,6 +86,10 @@ static void destroy(ctx_t *c) {
     }
 }
 
+/* values are 8 bytes without a zero byte; the string front ends store them with a terminator (9 bytes) */
+static uint64_t val_of(const void *d, size_t sz) { uint64_t v = ~0ULL; if (d && (sz == 8 || (sz == 9 && ((const char *)d)[8] == 0))) memcpy(&v, d, 8); return v; }
+#define PUT3(T_, put_, putstr_, putstrf_) do { char s9[9]; memcpy(s9, &v, 8); s9[8] = 0; int w_ = (int)((s->val >> 9) % 3); \
+        r->ok = w_ == 0 ? T_->put_(T_, k, &v, 8) : w_ == 1 ? T_->putstr_(T_, k, s9) : T_->putstrf_(T_, k, "%s", s9); } while (0)
 /* execute one operation on the real container */
 static void do_op(ctx_t *c, const opspec_t *s, opres_t *r) {
     memset(r, 0, sizeof *r);
@@ -92,52 +97,52 @@ static void do_op(ctx_t *c, const opspec_t *s, opres_t *r) {
     switch (c->kind) {
     case K_TREE: { qtreetbl_t *t = c->tree;
         switch (s->op) {
-        case O_PUT: r->ok = t->put(t, k, &v, 8); break;
-        case O_GET: { size_t sz = 0; void *d = t->get(t, k, &sz, true); r->ok = d != NULL; if (d) { if (sz == 8) memcpy(&r->val, d, 8); else r->val = ~0ULL; free(d); } break; }
+        case O_PUT: PUT3(t, put, putstr, putstrf); break;
+        case O_GET: { size_t sz = 0; void *d; if (s->val & 0x400) { d = t->getstr(t, k, true); sz = 8; } else d = t->get(t, k, &sz, true); r->ok = d != NULL; if (d) { r->val = val_of(d, sz); free(d); } break; }
         case O_REMOVE: r->ok = t->remove(t, k); break;
         case O_CLEAR: t->clear(t); r->ok = 1; break;
         case O_WALK: { qtreetbl_obj_t o; memset(&o, 0, sizeof o); t->lock(t);
-            while (t->getnext(t, &o, false) && r->n < MAXSNAP) { r->keys[r->n] = (uint64_t)kid(o.name); if (o.datasize == 8) memcpy(&r->snap[r->n], o.data, 8); else r->snap[r->n] = ~0ULL; r->n++; }
+            while (t->getnext(t, &o, false) && r->n < MAXSNAP) { r->keys[r->n] = (uint64_t)kid(o.name); r->snap[r->n] = val_of(o.data, o.datasize); r->n++; }
             t->unlock(t); r->ok = 1; break; }
         case O_FINDMIN: case O_FINDMAX: { size_t ns = 0; char *nm = s->op == O_FINDMIN ? t->find_min(t, &ns) : t->find_max(t, &ns); r->ok = nm != NULL;
             if (nm) { r->keys[0] = (ns == strlen(k) + 1 && nm[ns - 1] == 0) ? (uint64_t)kid(nm) : 99; free(nm); } break; }
         case O_NEAREST: { qtreetbl_obj_t o = t->find_nearest(t, k, strlen(k) + 1, true); r->ok = o.name != NULL;
-            if (o.name) { r->keys[0] = (o.namesize == strlen(k) + 1 && ((char *)o.name)[o.namesize - 1] == 0) ? (uint64_t)kid(o.name) : 99; if (o.datasize == 8 && o.data) memcpy(&r->val, o.data, 8); else r->val = ~0ULL; free(o.name); free(o.data); } break; }
+            if (o.name) { r->keys[0] = (o.namesize == strlen(k) + 1 && ((char *)o.name)[o.namesize - 1] == 0) ? (uint64_t)kid(o.name) : 99; r->val = val_of(o.data, o.datasize); free(o.name); free(o.data); } break; }
         } break; }
     case K_HASH: { qhashtbl_t *t = c->hash;
         switch (s->op) {
-        case O_PUT: r->ok = t->put(t, k, &v, 8); break;
-        case O_GET: { size_t sz = 0; void *d = t->get(t, k, &sz, true); r->ok = d != NULL; if (d) { if (sz == 8) memcpy(&r->val, d, 8); else r->val = ~0ULL; free(d); } break; }
+        case O_PUT: PUT3(t, put, putstr, putstrf); break;
+        case O_GET: { size_t sz = 0; void *d; if (s->val & 0x400) { d = t->getstr(t, k, true); sz = 8; } else d = t->get(t, k, &sz, true); r->ok = d != NULL; if (d) { r->val = val_of(d, sz); free(d); } break; }
         case O_REMOVE: r->ok = t->remove(t, k); break;
         case O_CLEAR: t->clear(t); r->ok = 1; break;
         case O_WALK: { qhashtbl_obj_t o; memset(&o, 0, sizeof o); t->lock(t);
-            while (t->getnext(t, &o, false) && r->n < MAXSNAP) { r->keys[r->n] = (uint64_t)kid(o.name); if (o.size == 8) memcpy(&r->snap[r->n], o.data, 8); else r->snap[r->n] = ~0ULL; r->n++; }
+            while (t->getnext(t, &o, false) && r->n < MAXSNAP) { r->keys[r->n] = (uint64_t)kid(o.name); r->snap[r->n] = val_of(o.data, o.size); r->n++; }
             t->unlock(t); r->ok = 1; break; }
         } break; }
     case K_LISTTBL: { qlisttbl_t *t = c->ltbl;
         switch (s->op) {
-        case O_PUT: r->ok = t->put(t, k, &v, 8); break;
-        case O_GET: { size_t sz = 0; void *d = t->get(t, k, &sz, true); r->ok = d != NULL; if (d) { if (sz == 8) memcpy(&r->val, d, 8); else r->val = ~0ULL; free(d); } break; }
+        case O_PUT: PUT3(t, put, putstr, putstrf); break;
+        case O_GET: { size_t sz = 0; void *d = t->get(t, k, &sz, true); r->ok = d != NULL; if (d) { r->val = val_of(d, sz); free(d); } break; }
         case O_REMOVE: r->ok = t->remove(t, k) > 0; break;
         case O_CLEAR: t->clear(t); r->ok = 1; break;
         case O_NEXT1: { qlisttbl_obj_t o; memset(&o, 0, sizeof o); r->ok = t->getnext(t, &o, k, true);
-            if (r->ok) { r->keys[0] = o.name ? (uint64_t)kid(o.name) : 99; if (o.size == 8 && o.data) memcpy(&r->val, o.data, 8); else r->val = ~0ULL; free(o.name); free(o.data); } break; }
+            if (r->ok) { r->keys[0] = o.name ? (uint64_t)kid(o.name) : 99; r->val = val_of(o.data, o.size); free(o.name); free(o.data); } break; }
         case O_WALK: { qlisttbl_obj_t o; memset(&o, 0, sizeof o); t->lock(t);
-            while (t->getnext(t, &o, NULL, false) && r->n < MAXSNAP) { r->keys[r->n] = (uint64_t)kid(o.name); if (o.size == 8) memcpy(&r->snap[r->n], o.data, 8); else r->snap[r->n] = ~0ULL; r->n++; }
+            while (t->getnext(t, &o, NULL, false) && r->n < MAXSNAP) { r->keys[r->n] = (uint64_t)kid(o.name); r->snap[r->n] = val_of(o.data, o.size); r->n++; }
             t->unlock(t); r->ok = 1; break; }
         } break; }
     case K_LISTMULTI: { qlisttbl_t *t = c->ltbl;
         switch (s->op) {
-        case O_PUT: r->ok = t->put(t, k, &v, 8); break;
-        case O_GET: { size_t sz = 0; void *d = t->get(t, k, &sz, true); r->ok = d != NULL; if (d) { if (sz == 8) memcpy(&r->val, d, 8); else r->val = ~0ULL; free(d); } break; }
+        case O_PUT: PUT3(t, put, putstr, putstrf); break;
+        case O_GET: { size_t sz = 0; void *d = t->get(t, k, &sz, true); r->ok = d != NULL; if (d) { r->val = val_of(d, sz); free(d); } break; }
         case O_REMOVE: r->ok = t->remove(t, k) > 0; break;
         case O_CLEAR: t->clear(t); r->ok = 1; break;
         case O_NEXT1: case O_NEXT1ANY: { qlisttbl_obj_t o; memset(&o, 0, sizeof o); r->ok = t->getnext(t, &o, s->op == O_NEXT1 ? k : NULL, true);
-            if (r->ok) { r->keys[0] = o.name ? (uint64_t)kid(o.name) : 99; if (o.size == 8 && o.data) memcpy(&r->val, o.data, 8); else r->val = ~0ULL; free(o.name); free(o.data); } break; }
+            if (r->ok) { r->keys[0] = o.name ? (uint64_t)kid(o.name) : 99; r->val = val_of(o.data, o.size); free(o.name); free(o.data); } break; }
         case O_GETMULTI: { size_t n = 0; qlisttbl_data_t *a = t->getmulti(t, k, true, &n); r->ok = 1;
-            if (a) { for (size_t i = 0; i < n; i++) { if (r->n >= 0 && r->n < MAXSNAP) { if (a[i].size == 8 && a[i].data) memcpy(&r->snap[r->n], a[i].data, 8); else r->snap[r->n] = ~0ULL; r->n++; } else r->n = -2; free(a[i].data); } free(a); } break; }
+            if (a) { for (size_t i = 0; i < n; i++) { if (r->n >= 0 && r->n < MAXSNAP) { r->snap[r->n] = val_of(a[i].data, a[i].size); r->n++; } else r->n = -2; free(a[i].data); } free(a); } break; }
         case O_WALK: { qlisttbl_obj_t o; memset(&o, 0, sizeof o); t->lock(t);
-            while (t->getnext(t, &o, NULL, false)) { if (r->n < 0 || r->n >= MAXSNAP) { r->n = -2; continue; } r->keys[r->n] = (uint64_t)kid(o.name); if (o.size == 8) memcpy(&r->snap[r->n], o.data, 8); else r->snap[r->n] = ~0ULL; r->n++; }
+            while (t->getnext(t, &o, NULL, false)) { if (r->n < 0 || r->n >= MAXSNAP) { r->n = -2; continue; } r->keys[r->n] = (uint64_t)kid(o.name); r->snap[r->n] = val_of(o.data, o.size); r->n++; }
             t->unlock(t); r->ok = 1; break; }
         } break; }
     case K_LIST: { qlist_t *l = c->list; size_t sz = 0; void *d = NULL;
@@ -150,6 +155,8 @@ static void do_op(ctx_t *c, const opspec_t *s, opres_t *r) {
         case O_GETLAST: d = l->getlast(l, &sz, true); break;
         case O_SEQCLEAR: l->clear(l); r->ok = 1; break;
         case O_NEXT1: { qlist_obj_t o; memset(&o, 0, sizeof o); if (l->getnext(l, &o, true)) { d = o.data; sz = o.size; } break; }
+        case O_RMFIRST: r->ok = l->removefirst(l); break;
+        case O_RMLAST: r->ok = l->removelast(l); break;
         case O_REVERSE: l->reverse(l); r->ok = 1; break;
         case O_REMOVEAT: r->ok = l->removeat(l, s->key); break;
         case O_ADDAT: r->ok = l->addat(l, s->key, &v, 8); break;
@@ -158,7 +165,7 @@ static void do_op(ctx_t *c, const opspec_t *s, opres_t *r) {
         case O_TOARRAY: { size_t tot = 0; void *a = l->toarray(l, &tot); r->ok = 1; if (a) { if (tot % 8) r->n = -1; else { r->n = (int)(tot / 8 > MAXSNAP ? MAXSNAP : tot / 8); memcpy(r->snap, a, (size_t)r->n * 8); } free(a); } break; }
         case O_TOSTRING: { char *a = l->tostring(l); r->ok = 1; if (a) { /* elements are 8 bytes without NUL inside (ids have no zero byte) */ size_t len = strlen(a); if (len % 8) r->n = -1; else { r->n = (int)(len / 8 > MAXSNAP ? MAXSNAP : len / 8); memcpy(r->snap, a, (size_t)r->n * 8); } free(a); } break; }
         }
-        if (is_pop(s->op) || is_seqget(s->op)) { r->ok = d != NULL; if (d) { if (sz == 8) memcpy(&r->val, d, 8); else r->val = ~0ULL; free(d); } }
+        if (is_pop(s->op) || is_seqget(s->op)) { r->ok = d != NULL; if (d) { r->val = val_of(d, sz); free(d); } }
         break; }
     case K_QUEUE: case K_STACK: { size_t sz = 0; void *d = NULL; qqueue_t *q = c->queue; qstack_t *st = c->stack; bool isq = c->kind == K_QUEUE;
         switch (s->op) {
@@ -167,7 +174,7 @@ static void do_op(ctx_t *c, const opspec_t *s, opres_t *r) {
         case O_GETFIRST: d = isq ? q->get(q, &sz, true) : st->get(st, &sz, true); r->ok = d != NULL; break;         /* get */
         case O_SEQCLEAR: if (isq) q->clear(q); else st->clear(st); r->ok = 1; break;
         }
-        if (d) { if (sz == 8) memcpy(&r->val, d, 8); else r->val = ~0ULL; free(d); }
+        if (d) { r->val = val_of(d, sz); free(d); }
         break; }
     case K_VECTOR: { qvector_t *vv = c->vec; void *d = NULL;
         switch (s->op) {
@@ -179,6 +186,9 @@ static void do_op(ctx_t *c, const opspec_t *s, opres_t *r) {
         case O_GETLAST: d = vv->getlast(vv, true); break;
         case O_SEQCLEAR: vv->clear(vv); r->ok = 1; break;
         case O_NEXT1: { qvector_obj_t o; memset(&o, 0, sizeof o); if (vv->getnext(vv, &o, true)) d = o.data; break; }
+        case O_RMFIRST: r->ok = vv->removefirst(vv); break;
+        case O_RMLAST: r->ok = vv->removelast(vv); break;
+        case O_RESIZE: r->ok = vv->resize(vv, s->key ? 6 : 1); break;
         case O_REVERSE: vv->reverse(vv); r->ok = 1; break;
         case O_REMOVEAT: r->ok = vv->removeat(vv, s->key); break;
         case O_SETAT: r->ok = vv->setat(vv, s->key, &v); break;
@@ -243,6 +253,9 @@ static bool model_apply(int kind, model_t *m, const hop_t *h) {
     case O_GETLAST: if (m->n == 0) return !r->ok; return r->ok && r->val == m->seq[m->n - 1];
     case O_SEQCLEAR: m->n = 0; return true;
     case O_REVERSE: for (int i = 0; i < m->n / 2; i++) { uint64_t t = m->seq[i]; m->seq[i] = m->seq[m->n - 1 - i]; m->seq[m->n - 1 - i] = t; } return true;
+    case O_RMFIRST: if (m->n == 0) return !r->ok; seq_del(m, 0); return r->ok == 1;
+    case O_RMLAST: if (m->n == 0) return !r->ok; seq_del(m, m->n - 1); return r->ok == 1;
+    case O_RESIZE: { int cap = s->key ? 6 : 1; if (m->n > cap) m->n = cap; return r->ok == 1; }
     case O_REMOVEAT: if (s->key >= m->n) return !r->ok; seq_del(m, s->key); return r->ok == 1;
     case O_SETAT: if (s->key >= m->n) return !r->ok; m->seq[s->key] = s->val; return r->ok == 1;
     case O_ADDAT: if (s->key > m->n) return !r->ok; seq_ins(m, s->key, s->val); return r->ok == 1;
@@ -291,7 +304,7 @@ static int linearizable(int kind, hop_t *H, int n, const model_t *init, int *ord
 }
 static void describe(char *b, size_t bs, const hop_t *h) {
     int n = snprintf(b, bs, "T%d %s", h->thread, ONAME[h->s.op]);
-    if (h->s.op <= O_REMOVE || h->s.op == O_NEAREST || h->s.op == O_GETMULTI) n += snprintf(b + n, bs - (size_t)n, "(k%d", h->s.key); else if (h->s.op == O_NEXT1) n += snprintf(b + n, bs - (size_t)n, "(%d", h->s.key); else if ((h->s.op >= O_ADDAT && h->s.op <= O_POPAT) || h->s.op == O_REMOVEAT || h->s.op == O_SETAT) n += snprintf(b + n, bs - (size_t)n, "(@%d", h->s.key); else n += snprintf(b + n, bs - (size_t)n, "(");
+    if (h->s.op <= O_REMOVE || h->s.op == O_NEAREST || h->s.op == O_GETMULTI) n += snprintf(b + n, bs - (size_t)n, "(k%d", h->s.key); else if (h->s.op == O_NEXT1) n += snprintf(b + n, bs - (size_t)n, "(%d", h->s.key); else if ((h->s.op >= O_ADDAT && h->s.op <= O_POPAT) || h->s.op == O_REMOVEAT || h->s.op == O_SETAT || h->s.op == O_RESIZE) n += snprintf(b + n, bs - (size_t)n, "(@%d", h->s.key); else n += snprintf(b + n, bs - (size_t)n, "(");
     if (h->s.op == O_PUT || is_add(h->s.op) || h->s.op == O_SETAT) n += snprintf(b + n, bs - (size_t)n, "%sv%llx", h->s.op == O_PUT || h->s.op == O_ADDAT || h->s.op == O_SETAT ? "," : "", (unsigned long long)h->s.val);
     n += snprintf(b + n, bs - (size_t)n, ") -> ");
     if (h->s.op == O_WALK || h->s.op == O_TOARRAY || h->s.op == O_TOSTRING || h->s.op == O_GETMULTI) { n += snprintf(b + n, bs - (size_t)n, "["); for (int i = 0; i < h->r.n && n < (int)bs - 30; i++) n += snprintf(b + n, bs - (size_t)n, h->s.op == O_WALK ? "k%llu=v%llx " : "%.0llu" "v%llx ", h->s.op == O_WALK ? (unsigned long long)h->r.keys[i] : 0ULL, (unsigned long long)h->r.snap[i]); n += snprintf(b + n, bs - (size_t)n, "]"); }
@@ -433,16 +446,16 @@ static const int MAPOPS[] = {O_PUT, O_PUT, O_GET, O_REMOVE, O_REMOVE, O_CLEAR, O
 static const int MULTIOPS[] = {O_PUT, O_PUT, O_PUT, O_GET, O_REMOVE, O_CLEAR, O_WALK, O_GETMULTI, O_GETMULTI, O_NEXT1, O_NEXT1ANY, O_REMOVE};
 static const int LTBLOPS[] = {O_PUT, O_PUT, O_GET, O_REMOVE, O_REMOVE, O_CLEAR, O_WALK, O_NEXT1, O_NEXT1, O_PUT};
 static const int TREEOPS[] = {O_PUT, O_PUT, O_GET, O_REMOVE, O_REMOVE, O_CLEAR, O_WALK, O_FINDMIN, O_FINDMAX, O_NEAREST, O_PUT, O_REMOVE};
-static const int SEQOPS_LIST[] = {O_ADDFIRST, O_ADDLAST, O_ADDLAST, O_POPFIRST, O_POPFIRST, O_POPLAST, O_GETFIRST, O_GETLAST, O_TOARRAY, O_TOSTRING, O_SEQCLEAR, O_ADDAT, O_GETAT, O_POPAT, O_NEXT1, O_REVERSE, O_REMOVEAT};
-static const int SEQOPS_VEC[] = {O_ADDFIRST, O_ADDLAST, O_ADDLAST, O_POPFIRST, O_POPFIRST, O_POPLAST, O_GETFIRST, O_GETLAST, O_TOARRAY, O_TOARRAY, O_SEQCLEAR, O_ADDAT, O_GETAT, O_POPAT, O_NEXT1, O_REVERSE, O_REMOVEAT, O_SETAT};
+static const int SEQOPS_LIST[] = {O_ADDFIRST, O_ADDLAST, O_ADDLAST, O_POPFIRST, O_POPFIRST, O_POPLAST, O_GETFIRST, O_GETLAST, O_TOARRAY, O_TOSTRING, O_SEQCLEAR, O_ADDAT, O_GETAT, O_POPAT, O_NEXT1, O_REVERSE, O_REMOVEAT, O_RMFIRST, O_RMLAST};
+static const int SEQOPS_VEC[] = {O_ADDFIRST, O_ADDLAST, O_ADDLAST, O_POPFIRST, O_POPFIRST, O_POPLAST, O_GETFIRST, O_GETLAST, O_TOARRAY, O_TOARRAY, O_SEQCLEAR, O_ADDAT, O_GETAT, O_POPAT, O_NEXT1, O_REVERSE, O_REMOVEAT, O_SETAT, O_RMFIRST, O_RMLAST, O_RESIZE};
 static const int SEQOPS_QS[] = {O_ADDLAST, O_ADDLAST, O_POPFIRST, O_POPFIRST, O_GETFIRST, O_SEQCLEAR};
 static int pick_op(int kind, rng_t *r) {
     if (kind == K_TREE) return TREEOPS[rng_below(r, 12)];
     if (kind == K_LISTMULTI) return MULTIOPS[rng_below(r, 12)];
     if (kind == K_LISTTBL) return LTBLOPS[rng_below(r, 10)];
     if (is_map(kind)) return MAPOPS[rng_below(r, 7)];
-    if (kind == K_LIST) return SEQOPS_LIST[rng_below(r, 17)];
-    if (kind == K_VECTOR) return SEQOPS_VEC[rng_below(r, 18)];
+    if (kind == K_LIST) return SEQOPS_LIST[rng_below(r, 19)];
+    if (kind == K_VECTOR) return SEQOPS_VEC[rng_below(r, 21)];
     return SEQOPS_QS[rng_below(r, 6)];
 }
 static void gen_program(program_t *pg, long pid, rng_t *r) {
@@ -467,6 +480,8 @@ static void gen_program(program_t *pg, long pid, rng_t *r) {
     if (d == 2 && pg->kind == K_LISTMULTI) { pg->nthreads = 2; pg->prefill = 2; pg->nops[0] = 2; pg->nops[1] = 2; pg->ops[0][0].op = O_GETMULTI; pg->ops[0][1].op = O_GET; pg->ops[1][0].op = O_REMOVE; pg->ops[1][1].op = O_PUT; for (int t = 0; t < 2; t++) for (int i = 0; i < 2; i++) pg->ops[t][i].key = 0; }
     if (d == 4 && (pg->kind == K_LIST || pg->kind == K_VECTOR)) { pg->nthreads = 2; pg->prefill = 3; pg->nops[0] = 1; pg->nops[1] = 2; pg->ops[0][0].op = O_REVERSE; pg->ops[1][0].op = O_POPLAST; pg->ops[1][1].op = O_ADDLAST; }
     if (d == 5 && (pg->kind == K_LIST || pg->kind == K_VECTOR)) { pg->nthreads = 2; pg->prefill = 2; pg->nops[0] = 2; pg->nops[1] = 2; pg->ops[0][0].op = O_REMOVEAT; pg->ops[0][0].key = 1; pg->ops[0][1].op = pg->kind == K_VECTOR ? O_SETAT : O_GETAT; pg->ops[0][1].key = 0; pg->ops[1][0].op = O_POPFIRST; pg->ops[1][1].op = O_ADDFIRST; }
+    if (d == 6 && pg->kind == K_VECTOR) { pg->nthreads = 2; pg->prefill = 3; pg->nops[0] = 2; pg->nops[1] = 2; pg->ops[0][0].op = O_RESIZE; pg->ops[0][0].key = 0; pg->ops[0][1].op = O_RESIZE; pg->ops[0][1].key = 1; pg->ops[1][0].op = O_ADDLAST; pg->ops[1][1].op = O_TOARRAY; }
+    if (d == 6 && pg->kind == K_LIST) { pg->nthreads = 2; pg->prefill = 2; pg->nops[0] = 2; pg->nops[1] = 2; pg->ops[0][0].op = O_RMFIRST; pg->ops[0][1].op = O_RMLAST; pg->ops[1][0].op = O_TOSTRING; pg->ops[1][1].op = O_ADDFIRST; }
     if (d == 2 && pg->kind == K_LISTTBL) { pg->nthreads = 2; pg->prefill = 1; pg->nops[0] = 2; pg->nops[1] = 2; pg->ops[0][0].op = O_NEXT1; pg->ops[0][1].op = O_NEXT1; pg->ops[1][0].op = O_PUT; pg->ops[1][1].op = O_PUT; for (int t = 0; t < 2; t++) for (int i = 0; i < 2; i++) pg->ops[t][i].key = 0; }
     if (d == 3 && pg->kind == K_LISTMULTI) { pg->nthreads = 2; pg->prefill = 2; pg->nops[0] = 2; pg->nops[1] = 2; pg->ops[0][0].op = O_NEXT1ANY; pg->ops[0][1].op = O_NEXT1; pg->ops[1][0].op = O_REMOVE; pg->ops[1][1].op = O_PUT; for (int t = 0; t < 2; t++) for (int i = 0; i < 2; i++) pg->ops[t][i].key = 0; }
     if (d == 2 && pg->kind == K_LIST) { pg->nthreads = 2; pg->nops[0] = 1; pg->nops[1] = 2; pg->prefill = 1; pg->ops[0][0].op = O_TOSTRING; pg->ops[1][0].op = O_POPFIRST; pg->ops[1][1].op = O_ADDLAST; }
@@ -474,7 +489,7 @@ static void gen_program(program_t *pg, long pid, rng_t *r) {
 static void program_text(program_t *pg, char *b, size_t bs) {
     int n = snprintf(b, bs, "%s prefill=%d: ", KNAME[pg->kind], pg->prefill);
     for (int t = 0; t < pg->nthreads; t++) { n += snprintf(b + n, bs - (size_t)n, "%sT%d{", t ? " || " : "", t);
-        for (int i = 0; i < pg->nops[t]; i++) n += snprintf(b + n, bs - (size_t)n, "%s%s%s", i ? ";" : "", ONAME[pg->ops[t][i].op], (pg->ops[t][i].op <= O_REMOVE || pg->ops[t][i].op == O_NEAREST || pg->ops[t][i].op == O_GETMULTI || (pg->ops[t][i].op == O_NEXT1 && is_keyed(pg->kind))) ? (pg->ops[t][i].key ? "(k1)" : "(k0)") : ((pg->ops[t][i].op >= O_ADDAT && pg->ops[t][i].op <= O_POPAT) || pg->ops[t][i].op == O_REMOVEAT || pg->ops[t][i].op == O_SETAT) ? (pg->ops[t][i].key ? "(@1)" : "(@0)") : "");
+        for (int i = 0; i < pg->nops[t]; i++) n += snprintf(b + n, bs - (size_t)n, "%s%s%s", i ? ";" : "", ONAME[pg->ops[t][i].op], (pg->ops[t][i].op <= O_REMOVE || pg->ops[t][i].op == O_NEAREST || pg->ops[t][i].op == O_GETMULTI || (pg->ops[t][i].op == O_NEXT1 && is_keyed(pg->kind))) ? (pg->ops[t][i].key ? "(k1)" : "(k0)") : ((pg->ops[t][i].op >= O_ADDAT && pg->ops[t][i].op <= O_POPAT) || pg->ops[t][i].op == O_REMOVEAT || pg->ops[t][i].op == O_SETAT || pg->ops[t][i].op == O_RESIZE) ? (pg->ops[t][i].key ? "(@1)" : "(@0)") : "");
         n += snprintf(b + n, bs - (size_t)n, "}"); }
 }
 
@@ -555,7 +570,7 @@ static void *stress_main(void *arg) {
         h->thread = id; h->s.op = pick_op(S_KIND, &TR); h->s.key = (int)rng_below(&TR, S_KIND == K_TREE ? 3 : 2);
         if (h->s.op == O_WALK && rng_chance(&TR, 2, 3)) h->s.op = O_GET;
 #ifndef __SANITIZE_THREAD__
-        if (h->s.op == O_REMOVEAT || h->s.op == O_SETAT) h->s.op = O_GETAT;      /* they drop a value without returning it: the conservation rules of the plain stress run cannot account for that; controlled schedules and the TSan run keep them */
+        if (h->s.op == O_REMOVEAT || h->s.op == O_SETAT || h->s.op == O_RMFIRST || h->s.op == O_RMLAST || h->s.op == O_RESIZE) h->s.op = O_GETAT;      /* they drop a value without returning it: the conservation rules of the plain stress run cannot account for that; controlled schedules and the TSan run keep them */
 #endif
         if ((h->s.op == O_CLEAR || h->s.op == O_SEQCLEAR) && rng_chance(&TR, 3, 4)) h->s.op = is_keyed(S_KIND) ? O_PUT : O_ADDLAST;
         h->s.val = idval((uint64_t)(id + 1) * 100000 + (uint64_t)i + 1);
